@@ -1,5 +1,4 @@
-\* behaviour generation (tlc -simulate): full alphabet. FixH4 is overridden by the checks
-\* (FALSE = the code as it is, TRUE once the repair is merged).
+\* behaviour generation (tlc -simulate): full alphabet. FixH4 is overridden by the checks (FALSE = the code as it is, TRUE once the repair is merged)
 CONSTANTS
   Users = {"c1", "c2"}
   Sys = {"sys1", "sys2"}
